@@ -107,7 +107,7 @@ def run_numeric(route, m, env, var, as_object=False, share=True):
         return Derivative(e, compute_early=True).at(P)
     if route in ("Derivative.at(number)/late", "Derivative.at(number)/early"):
         vs = M.variables(m)
-        number = env[vs[0]] if vs else 1.5
+        number = env.get(vs[0], 1.5) if vs else 1.5
         return Derivative(e, compute_early=route.endswith("early")).at(number)
     if route == "Differential.component.at/late":
         return Differential(e).component(v).at(P)
